@@ -143,6 +143,13 @@ def rule_queue(ck):
         ck.ob("pair.queue", f"{key}/push-guarded-by-not-transparent", ok, "", f.loc(c.bb))
         val = expr_str(expr_of(f, c.args[1]), 6)
         ck.ob("pair.queue", f"{key}/pushes-(pid,signal)-received", "arg3" in val and "Stopped" in val, f"pushed {val}", f.loc(c.bb))
+        # queue order = report order: the group stop that follows can re-enter apply_new_status for threads already sitting
+        # in their own signal stops (their signals are queued by the nested calls); the signal that initiated the stop is
+        # the one reported first, so it must be queued before the group stop starts
+        gs = [x for x in f.calls() if x.name == TR + "::group_stop_interrupt" and (c.bb in f.reach_from([x.bb]) or x.bb in f.reach_from([c.bb]))]
+        sig_gs = [x for x in gs if x.bb in f.reach_from([c.bb]) or c.bb in f.reach_from(f.succ(x.bb))]
+        late = [x for x in sig_gs if c.bb in f.reach_from(f.succ(x.bb))]
+        ck.ob("pair.queue", f"{key}/queued-before-the-group-stop-re-enters", bool(sig_gs) and not late, f"group_stop_interrupt calls on the signal arm: {len(sig_gs)}, before the push: {len(late)}", f.loc(c.bb), what="signals of threads found in a signal stop during the group stop are queued ahead of the signal being reported: the next resume injects another thread's signal unreported and reports this one twice")
         # exactly one push per received signal: the push is not in a loop
         ck.ob("pair.queue", f"{key}/push-not-in-loop", c.bb not in f.after(c.bb), "", f.loc(c.bb))
     r = ck.anchor(TR + "::resume")
